@@ -13,6 +13,7 @@ Encoding assumptions (repeated in every evidence file):
     are recorded in PathCtx.axioms (printed in evidence as trusted_base).
 """
 import itertools
+import os
 import z3
 from fractions import Fraction
 
@@ -164,6 +165,10 @@ def explore(run_once, hyps_builder=None, max_paths=512):
             except PathInfeasible:
                 out = None
             except Unsupported as e:
+                if os.environ.get("VFW_TRACE"):
+                    import traceback
+                    traceback.print_exc()
+                    print("  at source line", c.lineno)
                 out = ("unsupported", e)
         finally:
             CUR[0] = None
